@@ -12,7 +12,26 @@ import (
 	"github.com/bbockelm/cedar/stream"
 )
 
-var vhCtx = context.Background()
+// vhCtx is the context every harness hands to the code under test: a marked
+// context, so that an operation run under context.Background()/TODO() (or any
+// context not derived from the caller's) can be told apart.
+type vhCtxKey struct{}
+
+type vhMarkedCtx struct{}
+
+func (*vhMarkedCtx) Deadline() (time.Time, bool) { return time.Time{}, false }
+func (*vhMarkedCtx) Done() <-chan struct{}       { return nil }
+func (*vhMarkedCtx) Err() error                  { return nil }
+func (*vhMarkedCtx) Value(key any) any {
+	if _, ok := key.(vhCtxKey); ok {
+		return true
+	}
+	return nil
+}
+
+var vhCtx context.Context = &vhMarkedCtx{}
+
+func vhOwnCtx(c context.Context) bool { return c != nil && c.Value(vhCtxKey{}) != nil }
 
 // ---- connection (only ever carries protected application frames in these
 // harnesses; handshake messages are exchanged through the message-level seams) --
@@ -63,6 +82,7 @@ type vhIO struct {
 	encSent []bool // stream encryption state when each message was finished
 	encRecv []bool // stream encryption state when each inbound message was started
 	clearFrozen bool // a message crossed in the clear after the handshake digests were frozen
+	foreignCtx  bool // a message operation ran under a context not derived from the caller's
 	st      *stream.Stream
 }
 
@@ -73,6 +93,9 @@ var vhErrType = errors.New("unexpected item type")
 
 func (io_ *vhIO) pop(ctx context.Context, kind int) (vhItem, error) {
 	io_.ctxSeen = append(io_.ctxSeen, ctx)
+	if !vhOwnCtx(ctx) {
+		io_.foreignCtx = true
+	}
 	if io_.fresh {
 		io_.fresh = false
 		io_.cur = io_.peer(io_.nIn)
@@ -100,6 +123,9 @@ func (io_ *vhIO) pop(ctx context.Context, kind int) (vhItem, error) {
 
 func (io_ *vhIO) put(ctx context.Context, it vhItem) error {
 	io_.ctxSeen = append(io_.ctxSeen, ctx)
+	if !vhOwnCtx(ctx) {
+		io_.foreignCtx = true
+	}
 	io_.out = append(io_.out, it)
 	return nil
 }
@@ -170,6 +196,9 @@ func vhInstall(io_ *vhIO) func() {
 	}
 	message.VerifHook_Message_FinishMessage = func(m *message.Message, ctx context.Context) error {
 		vhio.ctxSeen = append(vhio.ctxSeen, ctx)
+		if !vhOwnCtx(ctx) {
+			vhio.foreignCtx = true
+		}
 		vhio.sent = append(vhio.sent, vhio.out)
 		if vhio.st != nil {
 			vhio.encSent = append(vhio.encSent, vhio.st.IsEncrypted())
@@ -182,6 +211,10 @@ func vhInstall(io_ *vhIO) func() {
 	}
 	VerifHook_redactSessionID = func(id string) string { return "sid" }
 	return func() {
+		// C19, checked wherever a handshake runs over the typed queues: every message
+		// operation of the code under test ran under (a descendant of) the context the
+		// caller passed in
+		vAssert(!vhio.foreignCtx, "every-message-operation-ran-under-the-callers-context")
 		message.VerifHook_NewMessageFromStream = nil
 		message.VerifHook_NewMessageForStream = nil
 		message.VerifHook_Message_GetInt = nil
@@ -241,6 +274,9 @@ func vhStubCrypto(user string) {
 		vhAuthLog = append(vhAuthLog, vhAuthRun{method, ok})
 		if vhio != nil {
 			vhio.ctxSeen = append(vhio.ctxSeen, ctx)
+			if !vhOwnCtx(ctx) {
+				vhio.foreignCtx = true
+			}
 		}
 		if !ok {
 			return errors.New("method failed")
